@@ -12,6 +12,6 @@ func TestC03(t *testing.T) {
 		Prop: "C03", Engine: "chainsim",
 		Generate: chainsim.GenC03, Decode: chainsim.DecodePlan, Execute: chainsim.ExecChain("C03"),
 		Shrink: chainsim.ShrinkPlan, Hash: chainsim.HashPlan,
-		StallS: 60, Meta: chainMeta,
+		StallS: 60, ShrinkBudget: 300, Meta: chainMeta,
 	})
 }
